@@ -37,29 +37,40 @@ FUNCTIONS += ["next (dir_rec.c)", "pop (dir_rec.c)", "expand_path (dir_rec.c)", 
 TRUSTED += [
     "w11_rec: wrapped single-directory iterators = contracts (next: any entry with a slash-free name of 1..2 bytes incl. '.'/'..' "
     "| end | any error; open_subdir: an iterator | any error); realloc = NULL (old block untouched) | typed block with the old "
-    "contents; alloc_flex = NULL | zeroed typed block (lib/util/src/alloc.c not executed); CBMC models of "
-    "strlen/strcmp/strcpy/strrchr/memcpy/memmove/malloc/calloc/free",
+    "contents; alloc_flex = NULL | zeroed typed block (lib/util/src/alloc.c not executed); "
+    "strlen/strcmp/strcpy/strrchr/memcpy/memmove as plain byte loops with the standard semantics, CBMC models of malloc/calloc/free",
 ]
 ASSUMPTIONS += [
-    "w11_rec: stack of <= 2 frames + 1 pending, frame and entry names <= 2 bytes (full alphabet minus NUL and '/'), at most 1 "
-    "'.'/'..' entries skipped per call; induction over calls is by the state triple (state, top, next_top) the postconditions re-establish",
+    "w11_rec: stack + pending of <= 2 frames (the '_named' shape gives the bottom frame a name so that a non-empty stack path is "
+    "covered in the quick tier), frame and entry names of 1 and 2 bytes (length per case, bytes symbolic: full alphabet minus NUL and "
+    "'/'), at most 1 '.'/'..' entry skipped per call; induction over calls is by the state triple (state, top, next_top) the "
+    "postconditions re-establish; read_link/open_subdir/open_file_ro/read_xattr forwarders of dir_rec.c are not under contract",
 ]
 _REC_FP = {"next:next": "stub_next", "next:open_subdir": "stub_open_subdir", "destroy": "stub_destroy"}
 
 
-def _rec(d, h):
+def _rec(d, h, e=2, f=2, named=0):
     frames = d + 1
+    if named:
+        c = _rec(d, h, e, f)
+        c["id"] += "_named"
+        c["defines"]["ROOT_NAMED"] = 1
+        return c
     # next.0 (the for(;;) of next): one pass per read of a wrapped iterator; everything else walks strings <= MAXPATH
-    return dict(id="d%d_p%d" % (d, h), defines={"DEPTH": d, "HAS_NEXT": h},
-                unwind=frames * 3 + 3 + 2, unwindset=["next.0:%d" % (d + h + 1 + 1 + 1)])
+    return dict(id="d%d_p%d_e%d_f%d" % (d, h, e, f), defines={"DEPTH": d, "HAS_NEXT": h, "ELEN": e, "FLEN": f},
+                unwind=frames * (f + 1) + e + 1 + 2, unwindset=["next.0:%d" % (d + h + 1 + 1 + 1)])
 
+
+# measured: d0_p1 40-50 s, d1_p0 35 s, d1_p1 150 s
+_REC_QUICK = [(0, 1, 1, 2), (0, 1, 2, 2), (1, 0, 2, 1, 1)]
+_REC_THOROUGH = [(1, 0, 2, 1), (1, 1, 1, 2), (1, 0, 1, 2, 1)]
 
 HARNESSES += [
-    dict(name="w11_rec_next", file="w11_rec.c", label="bounded(stack<=3,name<=2,dots<=1)",
+    dict(name="w11_rec_next", file="w11_rec.c", label="bounded(stack<=2,name<=2,dots<=1)", native=False,
          include_dirs=["lib/sqfs/src/io"], defines={"MODE": 0}, fp=_REC_FP,
          flags=["--memory-leak-check"], timeout=900,
-         cases=[dict(_rec(d, h), tier="quick" if (d, h) in ((0, 1), (1, 0), (1, 1)) else "thorough")
-                for d, h in ((0, 1), (1, 0), (1, 1), (2, 0), (2, 1))]),
+         cases=[dict(_rec(*t), tier="quick") for t in _REC_QUICK] +
+               [dict(_rec(*t), tier="thorough") for t in _REC_THOROUGH]),
     dict(name="w11_rec_ignore", file="w11_rec.c", label="bounded(stack<=2)",
          include_dirs=["lib/sqfs/src/io"], defines={"MODE": 1}, fp=_REC_FP,
          flags=["--memory-leak-check"], timeout=600,
@@ -67,4 +78,102 @@ HARNESSES += [
     dict(name="w11_rec_create", file="w11_rec.c", label="proved", include_dirs=["lib/sqfs/src/io"],
          defines={"MODE": 2, "DEPTH": 0, "HAS_NEXT": 0}, fp=_REC_FP, malloc_fail=True,
          flags=["--memory-leak-check"], timeout=600, unwind=6, cases=[dict(id="full", tier="quick")]),
+]
+
+# ---- glob.c -----------------------------------------------------------------------
+FUNCTIONS += ["glob_files", "set_scan_flag", "apply_type_flag", "split_line_remove_front",
+              "scan_directory (only its empty-directory / read-error paths; the per-entry path is NOT under contract)"]
+TRUSTED += [
+    "w11_glob_flags: fstree_get_node_by_path = NULL | the target node (any mode); fstree_get_path = NULL | fresh string; "
+    "canonicalize_name = 0 | -1 (proved in C18); dir_tree_iterator_create = NULL | an iterator, records the configuration and path "
+    "it is given (the real one: w11_dti_create); the iterator is empty or fails at once; "
+    "fprintf/fputs/perror/strerror/sqfs_perror: no effect; strcmp/strlen/memcpy as plain byte loops, CBMC models of memset/calloc/free",
+]
+ASSUMPTIONS += [
+    "w11_glob_flags: the option lines are enumerated (quick: 25 lines of <= 4 items with every scan option before and after -type; "
+    "thorough: + every ordered pair (-xdev | -nohardlinks | -path) x (14 type letters) in both orders and 20 type/option/type triples); "
+    "the inherited flags (all 2^32), the line's defaults and every callee outcome are symbolic; a missing argument of the last option "
+    "is not exercised; symbolic option strings were tried and take 250-1000 s per case",
+]
+_GLOB_FP = {"next": "stub_next", "destroy": "stub_destroy", "ignore_subdir": "stub_ignore_subdir",
+            "read_link": "stub_read_link"}
+
+
+_SCAN = {"xdev": 0, "mount": 1, "keeptime": 2, "nonrecursive": 3, "nohardlinks": 4, "bogus": 5}
+_LETTERS = "bBcCdDpPfFlLsSx"
+
+
+def _code(tok):
+    if tok in _SCAN:
+        return _SCAN[tok]
+    if tok.startswith("type_"):
+        return 10 + _LETTERS.index(tok[5:])
+    return {"name": 30, "path": 31}[tok]
+
+
+def _glob(line, tail=0, tier="quick"):
+    toks = line.split()
+    defs = {"TAIL": tail}
+    for i, t in enumerate(toks):
+        defs["O%d" % i] = _code(t)
+    if "bogus" in toks or "type_x" in toks:
+        defs["REJECT"] = None
+    return dict(id=("_".join(toks) or "none") + ("_t%d" % tail if tail else ""), defines=defs, tier=tier)
+
+
+_GLOB_QUICK = [
+    "", "nohardlinks", "type_f", "name", "path",
+    "nohardlinks type_f", "type_f nohardlinks",          # the seeded change C11-3: option before / after -type
+    "xdev type_d", "mount type_D", "keeptime type_l", "nonrecursive type_s", "path type_c",
+    "type_b type_c keeptime", "nohardlinks type_f type_l", "type_p nohardlinks type_S",
+    "xdev name type_F nonrecursive", "type_L path type_P nohardlinks", "keeptime nohardlinks type_B type_C",
+    "bogus", "type_x", "nohardlinks bogus", "type_f type_x",
+]
+_GLOB_THOROUGH = (["%s type_%s" % (o, l) for o in ("xdev", "nohardlinks", "path")
+                   for l in _LETTERS[:14]] +
+                  ["type_%s %s" % (l, o) for o in ("xdev", "nohardlinks", "path")
+                   for l in _LETTERS[:14]] +
+                  ["type_%s %s type_%s" % (a, o, b) for o in ("xdev", "keeptime", "nonrecursive", "nohardlinks", "path")
+                   for a, b in (("f", "d"), ("l", "s"), ("b", "c"), ("p", "f"))])
+_GLOB_QUICK = [l for l in _GLOB_QUICK]
+_GLOB_THOROUGH = [l for l in _GLOB_THOROUGH if l not in _GLOB_QUICK]
+
+HARNESSES += [
+    dict(name="w11_glob_flags", file="w11_glob.c", label="bounded(options<=4, lines enumerated)",
+         include_dirs=["bin/gensquashfs/src"], fp=_GLOB_FP, native=False,
+         flags=["--memory-leak-check"], malloc_fail=True, unwind=16, timeout=300,
+         unwindset=["glob_files.0:6", "split_line_remove_front.0:12", "scan_directory.0:3"],
+         cases=[_glob(l) for l in _GLOB_QUICK] +
+               [_glob("nohardlinks type_f", 1), _glob("type_f nohardlinks", 2), _glob("", 1)] +
+               [_glob(l, 0, "thorough") for l in _GLOB_THOROUGH]),
+]
+
+# ---- dir_tree_iterator.c ------------------------------------------------------------
+FUNCTIONS += ["next (dir_tree_iterator.c)", "should_skip", "expand_path (dir_tree_iterator.c)", "apply_changes",
+              "dir_tree_iterator_create", "destroy (dir_tree_iterator.c)"]
+TRUSTED += [
+    "w11_dti_next: wrapped iterator = contract (next: any entry with a name of ELEN non-NUL bytes, '/' allowed | end | any error; "
+    "ignore_subdir counted); fnmatch = any int, arguments checked; realloc = NULL | typed block with the old contents",
+    "w11_dti_create: sqfs_dir_iterator_create_native / sqfs_dir_iterator_create_recursive / sqfs_hard_link_filter_create = "
+    "error | fresh object holding one reference to what it wraps (the real ones: w11_unix_create, w11_rec_create, C11 hl)",
+]
+ASSUMPTIONS += [
+    "w11_dti_next: at most K=2 entries read per call (one dropped + one yielded, or two dropped), EMPTY prefix, entry names of 1 byte, "
+    "no name pattern (the fnmatch branch: did not finish in 900 s, not registered - only its argument check is written down in the "
+    "harness); cases with a non-empty prefix (realloc/memmove path of expand_path) or "
+    "2-byte names did not finish in 400 s and are not registered - that path is NOT covered; across calls the induction is by "
+    "cfg_frame + sticky (cfg and rec never change, state is 0 until end/error); the read_link/... forwarders are not under contract",
+]
+_DTI_FP = {"next:next": "stub_next", "next:ignore_subdir": "stub_ignore_subdir", "destroy": "stub_destroy"}
+HARNESSES += [
+    dict(name="w11_dti_next", file="w11_dti.c", label="bounded(reads<=2,prefix empty,name 1 byte)", include_dirs=["lib/common/src"],
+         defines={"MODE": 0}, fp=_DTI_FP, flags=["--memory-leak-check"], native=False, unwind=10, timeout=900,
+         unwindset=["next.0:4"],
+         cases=[dict(id="p%d_e%d_pat%d" % (p, e, pat), defines={"PLEN": p, "ELEN": e, "HAS_PATTERN": pat},
+                     tier=t)
+                # with a name pattern (HAS_PATTERN=1) the same shape did not finish in 900 s: not registered
+                for p, e, pat, t in ((0, 1, 0, "quick"),)]),
+    dict(name="w11_dti_create", file="w11_dti.c", label="proved", include_dirs=["lib/common/src"],
+         defines={"MODE": 1}, fp={"destroy": "stub_destroy"}, malloc_fail=True, flags=["--memory-leak-check"],
+         native=False, unwind=4, timeout=600, cases=[dict(id="full", tier="quick")]),
 ]
